@@ -37,3 +37,15 @@ Theorem C01_generator : forall rg g lim sts tbl,
   validate g (map st_all sts) tbl = true.
 Proof. exact gen_validates_analyze. Qed.
 Print Assumptions C01_generator.
+
+(* EXACTLY the language, as a decision procedure (termination included): for a table that additionally passes the
+   decidable lookahead/productivity checks of Valid/LRProductive.v (discharged on the real tables by the C06 check),
+   some amount of fuel settles every input: derivable inputs are accepted with a derivation tree, all others rejected. *)
+Require Import Ctpg.Valid.LRProductive Ctpg.Proofs.TermAll.
+Theorem C01_decides_the_language : forall g sts tbl w,
+  term_checks g sts tbl = true -> no_error_symbol g tbl = true -> tokens_ok g w ->
+  exists fuel, forall fuel', fuel <= fuel' ->
+    (derives g w -> exists t, tree_run g tbl w fuel' = Accept t /\ derives_tree g t w) /\
+    (~ derives g w -> tree_run g tbl w fuel' = Reject).
+Proof. exact decides_language_checked. Qed.
+Print Assumptions C01_decides_the_language.
